@@ -41,7 +41,9 @@ def genDb (oid : Nat) (name : Bytes) (maxSeqs : Nat) : Gen Db := do
   let nOther ← Gen.range 0 12
   let mut rels : Array Rel := #[]
   for i in [0:nSeq] do
-    rels := rels.push { oid := 16400 + 3 * i, name := asciiName "seq_" i, filenode := 16400 + 3 * i + (← Gen.below 2) * 5000,
+    -- relname is unique only per schema: now and then a sequence repeats the name of an earlier one (public.id_seq, audit.id_seq)
+    let nm ← (do if i > 0 && (← Gen.prob 1 4) then pure (asciiName "seq_" (← Gen.below i)) else pure (asciiName "seq_" i))
+    rels := rels.push { oid := 16400 + 3 * i, name := nm, filenode := 16400 + 3 * i + (← Gen.below 2) * 5000,
                         kind := 83, seq := some (← genSeqPage) }
   for i in [0:nOther] do
     let kind ← Gen.oneOf [114, 105, 116, 118, 109, 99, 112, 115]   -- r i t v m c p s(lower-case!)
